@@ -5,5 +5,6 @@ set -e
 cd /verif/engine
 mkdir -p /verif/bin /verif/work /verif/evidence /verif/replays
 go build -o /verif/bin/bhsverif ./cmd/bhsverif
+go build -o /verif/bin/schemaprobe ./cmd/schemaprobe
 cd /repo && go build ./... 
 echo setup-ok
